@@ -151,6 +151,17 @@ def _build_locked(prop_file, timeout, deps, res, t0):
             return res
     res["ok"] = True
     res["assumptions"] = out.strip()
+    if os.environ.get("XV_TIER") == "thorough" and os.environ.get("XV_COQCHK", "1") == "1":
+        # independent re-check of the compiled property file and everything it depends on
+        mod = "XV." + prop_file[:-2].replace("/", ".")
+        cmd = f"timeout 1200 coqchk -silent -o -R . XV {mod}"
+        res["cmds"].append(f"cd {COQ} && {cmd}")
+        rc, chk = sh(cmd, timeout=1230, cwd=COQ)
+        res["coqchk"] = {"rc": rc, "summary": chk.strip()[-1500:]}
+        if rc != 0:
+            res["ok"] = False
+            res["failed_file"] = prop_file
+            res["log_tail"] = "coqchk failed: " + chk[-2000:]
     res["wall_s"] = time.time() - t0
     return res
 
@@ -390,6 +401,7 @@ class Check:
             "samples": self._pick_samples() or ["(no correspondence case run)"],
             "input_distribution": self.dist,
             "forbidden_word_scan": scan or "clean",
+            "coqchk": build_res.get("coqchk", "not run in this tier"),
             "broken_obligations": self.broken,
             "notes": self.notes,
         }
